@@ -78,6 +78,8 @@ type Sched struct {
 	// DescOn makes Point record descriptions (slower); off by default.
 	TraceOn  bool
 	TraceLog []string
+	norecord bool
+	clock    int64
 	closed   map[any]bool
 	keep     []any
 }
@@ -228,7 +230,7 @@ func (s *Sched) next(from *Thread, fromDone bool) {
 		return
 	}
 	idx := 0
-	if len(enabled) > 1 {
+	if len(enabled) > 1 && !s.norecord {
 		pi := &PointInfo{Enabled: enabled, CurEnabled: curEnabled, Cur: from.ID, Desc: from.desc}
 		idx = s.chooser.Choose(pi)
 		if idx < 0 || idx >= len(enabled) {
@@ -389,4 +391,54 @@ func Close[C ~chan T | ~chan<- T, T any](c C) {
 		s.keep = append(s.keep, c)
 	}
 	closeReal(c)
+}
+
+// SetRecording switches choice recording on or off. While off the default
+// choice (keep running, else lowest id) is taken and nothing is recorded:
+// used for the sequential set-up and tear-down phases of a scenario.
+func SetRecording(on bool) {
+	if s := Cur(); s != nil {
+		s.norecord = !on
+	}
+}
+
+// Tick advances and returns the execution's logical clock.
+func Tick() int64 {
+	if s := Cur(); s != nil {
+		s.clock++
+		return s.clock
+	}
+	return 0
+}
+
+// WaitThreads parks the caller until every other non-daemon thread is done.
+func WaitThreads() {
+	s := Cur()
+	if s == nil || s.aborting {
+		return
+	}
+	t := s.cur
+	s.Point(func() bool {
+		for _, o := range s.threads {
+			if o != t && !o.Daemon && !o.done {
+				return false
+			}
+		}
+		return true
+	}, "wait-threads")
+}
+
+// DaemonsLeft lists daemon threads that are not finished (name: pending op).
+func DaemonsLeft() []string {
+	s := Cur()
+	if s == nil {
+		return nil
+	}
+	var out []string
+	for _, t := range s.threads {
+		if t.Daemon && !t.done {
+			out = append(out, t.Name+": "+t.desc)
+		}
+	}
+	return out
 }
